@@ -437,6 +437,24 @@ fn main() {
                 let mut b = Vec::new(); sv.write_to_request(&mut b);
                 match r { Ok(()) => format!("BOUND {}", sv.element_count()), Err(_) if b == [0, 0] => "REFUSED".to_string(), Err(_) => "REFUSED-BUT-CHANGED".to_string() }
             }
+            // readrow <carrier> <column type name as for emptyval>: <carrier as DeserializeValue>::type_check against the column type: PASSES / REFUSED
+            "readrow" => {
+                use scylla_cql_core::deserialize::value::DeserializeValue;
+                use scylla_cql_core::value::{Counter, CqlDate, CqlDuration, CqlTime, CqlTimestamp, CqlTimeuuid};
+                let typ = match coltype_by_name(a[2]) { Some(t) => t, None => return "ERR unknown type".to_string() };
+                let r = match a[1] {
+                    "i8" => <i8 as DeserializeValue>::type_check(&typ), "i16" => <i16 as DeserializeValue>::type_check(&typ),
+                    "i32" => <i32 as DeserializeValue>::type_check(&typ), "i64" => <i64 as DeserializeValue>::type_check(&typ),
+                    "f32" => <f32 as DeserializeValue>::type_check(&typ), "f64" => <f64 as DeserializeValue>::type_check(&typ),
+                    "bool" => <bool as DeserializeValue>::type_check(&typ), "Counter" => <Counter as DeserializeValue>::type_check(&typ),
+                    "CqlDate" => <CqlDate as DeserializeValue>::type_check(&typ), "CqlTime" => <CqlTime as DeserializeValue>::type_check(&typ),
+                    "CqlTimestamp" => <CqlTimestamp as DeserializeValue>::type_check(&typ), "CqlDuration" => <CqlDuration as DeserializeValue>::type_check(&typ),
+                    "Uuid" => <uuid::Uuid as DeserializeValue>::type_check(&typ), "CqlTimeuuid" => <CqlTimeuuid as DeserializeValue>::type_check(&typ),
+                    "IpAddr" => <std::net::IpAddr as DeserializeValue>::type_check(&typ),
+                    _ => return "ERR unknown carrier".to_string(),
+                };
+                if r.is_ok() { "PASSES".to_string() } else { "REFUSED".to_string() }
+            }
             // emptyde <cell hex|-|null>: read an int column cell as MaybeEmpty<i32> through the public API: NULL-ERR / EMPTY / VALUE <n> / ERR
             "emptyde" => {
                 use scylla_cql_core::deserialize::value::DeserializeValue;
